@@ -90,14 +90,16 @@ func c02Apply(l c02Layout, basis []byte, script []int, salt uint32) []byte {
 }
 
 func c02BuildSenderLarge(tier string) core.Source {
-	if tier != "thorough" {
-		return core.FuncSource{N: 0}
-	}
 	var layouts []c02Layout
-	for _, B := range []int{700, 704, 1024, 2048, 4096, 8192, 65536, 131072} {
-		layouts = append(layouts, c02Layout{B, 2, 3}, c02Layout{B, 5, 3})
+	if tier != "thorough" {
+		// quick: the generator's minimum block size and one multiple-of-8 size, scripts of depth <=2
+		layouts = []c02Layout{{700, 2, 2}, {2048, 3, 2}}
+	} else {
+		for _, B := range []int{700, 704, 1024, 2048, 4096, 8192, 65536, 131072} {
+			layouts = append(layouts, c02Layout{B, 2, 3}, c02Layout{B, 5, 3})
+		}
+		layouts = append(layouts, c02Layout{700, 1200, 2}, c02Layout{1024, 800, 2})
 	}
-	layouts = append(layouts, c02Layout{700, 1200, 2}, c02Layout{1024, 800, 2})
 	type cs struct {
 		l     c02Layout
 		first int // first op, or -1 for the empty and whole-basis scripts
